@@ -12,8 +12,8 @@ use bytes::BytesMut;
 use serde::{Deserialize, Serialize};
 use serde_json::{json, Value as Json};
 use swimos_agent_protocol::encoding::downlink::DownlinkNotificationEncoder;
-use swimos_agent_protocol::encoding::map::MapMessageEncoder;
-use swimos_agent_protocol::{DownlinkNotification, MapMessage};
+use swimos_agent_protocol::encoding::map::{MapMessageEncoder, MapOperationDecoder};
+use swimos_agent_protocol::{DownlinkNotification, MapMessage, MapOperation};
 use swimos_api::address::Address;
 use swimos_client_api::{Downlink, DownlinkConfig};
 use swimos_downlink::{map_downlink, value_downlink, DownlinkTask, ValueDownlinkSet};
@@ -43,6 +43,14 @@ pub enum N {
     Drop(u64),
 }
 
+/// A local write issued through the `MapDownlinkHandle` of a client map downlink.
+#[derive(Debug, Clone, Copy, Serialize, Deserialize, PartialEq, Eq)]
+pub enum MOp {
+    Upd(i32, i32),
+    Rem(i32),
+    Clr,
+}
+
 #[derive(Debug, Clone, Serialize, Deserialize, PartialEq, Eq)]
 pub struct DtScenario {
     pub map: bool,
@@ -58,6 +66,13 @@ pub struct DtScenario {
     /// not change what it reports.
     #[serde(default, skip_serializing_if = "Option::is_none")]
     pub drop_handle_after: Option<u32>,
+    /// Local writes of a client map downlink, each issued *between* two notifications at a quiescent point:
+    /// (index of the notification it precedes, operation). The feeder stops before that notification, the
+    /// harness waits until nothing is runnable, hands the operation to the handle, waits until nothing is
+    /// runnable again (the task has taken it and written the command) and lets the feeder continue, so the
+    /// position of the write in the notification order is known exactly.
+    #[serde(default, skip_serializing_if = "Vec::is_empty")]
+    pub map_ops: Vec<(u32, MOp)>,
     /// Capacity of the channel that carries the notifications (small => frames are fragmented).
     pub in_cap: u32,
     pub out_cap: u32,
@@ -157,8 +172,27 @@ pub fn generate(seed: u64, map: bool) -> DtScenario {
             local_sets.push((rng.range(1, 60) as u32, next));
         }
     }
+    let mut map_ops = vec![];
+    {
+        let mut mr = root.sub("map-ops");
+        if map && legal && mr.chance(2, 5) {
+            let mut lv = 9000;
+            for _ in 0..mr.range(1, 4) {
+                lv += 1;
+                let k = mr.range_i(0, keys as i64 - 1) as i32;
+                let op = match mr.below(6) {
+                    0..=3 => MOp::Upd(k, lv),
+                    4 => MOp::Rem(k),
+                    _ => MOp::Clr,
+                };
+                map_ops.push((mr.range(0, script.len() as u64 + 1) as u32, op));
+            }
+            map_ops.sort_by_key(|(p, _)| *p);
+        }
+    }
     DtScenario {
         map,
+        map_ops,
         events_when_not_synced: rng.chance(1, 2),
         terminate_on_unlinked: rng.chance(1, 2),
         legal,
@@ -204,6 +238,10 @@ pub struct Record {
     pub panics: Vec<crate::core::exec::NodePanic>,
     pub step_limit: bool,
     pub fed: usize,
+    /// Bodies of the commands a map downlink wrote to its output.
+    pub out_bodies: Vec<String>,
+    /// Local map writes handed to the handle: (position, operation, accepted by the handle).
+    pub map_ops_issued: Vec<(u32, MOp, bool)>,
 }
 
 struct Yield(bool);
@@ -215,6 +253,32 @@ impl std::future::Future for Yield {
         } else {
             self.0 = true;
             cx.waker().wake_by_ref();
+            std::task::Poll::Pending
+        }
+    }
+}
+
+/// Hand-over between the feeder and the main loop for the local writes of a map downlink.
+#[derive(Default)]
+struct LocalGate {
+    /// The write the feeder wants issued before it continues.
+    want: Option<(u32, MOp)>,
+    /// 0: waiting for quiescence before the write, 1: written, waiting for quiescence after it.
+    phase: u8,
+    released: bool,
+    waker: Option<std::task::Waker>,
+}
+
+struct Parked(Rc<RefCell<LocalGate>>);
+impl std::future::Future for Parked {
+    type Output = ();
+    fn poll(self: std::pin::Pin<&mut Self>, cx: &mut std::task::Context<'_>) -> std::task::Poll<()> {
+        let mut g = self.0.borrow_mut();
+        if g.released {
+            g.released = false;
+            std::task::Poll::Ready(())
+        } else {
+            g.waker = Some(cx.waker().clone());
             std::task::Poll::Pending
         }
     }
@@ -239,7 +303,8 @@ pub async fn run(sc: &DtScenario) -> Record {
     let result: Rc<RefCell<Option<String>>> = Rc::new(RefCell::new(None));
     let r2 = result.clone();
     let (set_tx, set_rx) = mpsc::channel::<ValueDownlinkSet<i32>>(8);
-    let (_map_tx, map_rx) = mpsc::channel(8);
+    let (map_tx, map_rx) = mpsc::channel(8);
+    let gate: Rc<RefCell<LocalGate>> = Rc::new(RefCell::new(LocalGate::default()));
     let task_node = if sc.map {
         let tr = trace.clone();
         let model = map_downlink::<i32, i32>(map_rx).with_lifecycle(move |lc| {
@@ -285,9 +350,15 @@ pub async fn run(sc: &DtScenario) -> Record {
     let gap = sc.gap;
     let fed = Rc::new(RefCell::new(0usize));
     let fed2 = fed.clone();
+    let feeder_ops = if sc.map { sc.map_ops.clone() } else { vec![] };
+    let gate_f = gate.clone();
     exec.spawn("feeder", 64, async move {
         let mut tx = in_tx;
-        for n in script.iter() {
+        for (idx, n) in script.iter().enumerate() {
+            for (p, op) in feeder_ops.iter().filter(|(p, _)| *p as usize == idx) {
+                gate_f.borrow_mut().want = Some((*p, *op));
+                Parked(gate_f.clone()).await;
+            }
             let mut buf = BytesMut::new();
             let mut enc = DownlinkNotificationEncoder;
             let mut body = BytesMut::new();
@@ -322,13 +393,37 @@ pub async fn run(sc: &DtScenario) -> Record {
                 Yield(false).await;
             }
         }
+        for (p, op) in feeder_ops.iter().filter(|(p, _)| *p as usize >= script.len()) {
+            gate_f.borrow_mut().want = Some((*p, *op));
+            Parked(gate_f.clone()).await;
+        }
         // The link is over: end of stream.
         drop(tx);
     });
     // Output drain: records the values of the commands the downlink sends.
     let outs: Rc<RefCell<Vec<i32>>> = Rc::new(RefCell::new(vec![]));
     let outs2 = outs.clone();
+    let out_bodies: Rc<RefCell<Vec<String>>> = Rc::new(RefCell::new(vec![]));
+    let out_bodies2 = out_bodies.clone();
+    let is_map = sc.map;
     exec.spawn("drain", 64, async move {
+        if is_map {
+            // MapOperation frames, decoded with the product's decoder.
+            use futures::StreamExt;
+            let mut framed = tokio_util::codec::FramedRead::new(out_rx, MapOperationDecoder::<i32, i32>::default());
+            while let Some(item) = framed.next().await {
+                match item {
+                    Ok(MapOperation::Update { key, value }) => out_bodies2.borrow_mut().push(format!("@update(key:{key}) {value}")),
+                    Ok(MapOperation::Remove { key }) => out_bodies2.borrow_mut().push(format!("@remove(key:{key})")),
+                    Ok(MapOperation::Clear) => out_bodies2.borrow_mut().push("@clear".to_string()),
+                    Err(e) => {
+                        out_bodies2.borrow_mut().push(format!("undecodable: {e}"));
+                        break;
+                    }
+                }
+            }
+            return;
+        }
         let mut buf = BytesMut::new();
         let mut chunk = [0u8; 256];
         loop {
@@ -392,19 +487,49 @@ pub async fn run(sc: &DtScenario) -> Record {
         });
     }
     let mut step_limit = false;
+    let mut map_ops_issued = vec![];
     loop {
         if exec.steps > 20_000 {
             step_limit = true;
             break;
         }
         if !exec.step() {
+            // Nothing is runnable: the point at which a local map write is issued / the feeder is let go.
+            let mut g = gate.borrow_mut();
+            if !exec.is_done(task_node) && g.want.is_some() {
+                if g.phase == 0 {
+                    let (p, op) = g.want.unwrap();
+                    let msg = match op {
+                        MOp::Upd(k, v) => MapOperation::Update { key: k, value: v },
+                        MOp::Rem(k) => MapOperation::Remove { key: k },
+                        MOp::Clr => MapOperation::Clear,
+                    };
+                    let ok = map_tx.try_send(msg).is_ok();
+                    map_ops_issued.push((p, op, ok));
+                    g.phase = 1;
+                } else {
+                    g.phase = 0;
+                    g.want = None;
+                    g.released = true;
+                    if let Some(w) = g.waker.take() {
+                        w.wake();
+                    }
+                }
+                drop(g);
+                tokio::task::yield_now().await;
+                continue;
+            }
+            drop(g);
             if exec.is_done(task_node) || !exec.has_ready() {
                 break;
             }
         }
         tokio::task::yield_now().await;
     }
+    drop(map_tx);
     let rec = Record {
+        out_bodies: out_bodies.borrow().clone(),
+        map_ops_issued,
         sc: sc.clone(),
         trace: trace.lock().unwrap().clone(),
         result: result.borrow().clone(),
@@ -419,8 +544,14 @@ pub async fn run(sc: &DtScenario) -> Record {
     rec
 }
 
-/// The reference fold: expected callbacks for a prefix of the script.
+/// The reference fold: expected callbacks for a prefix of the script (local map writes leave the state alone).
 pub fn reference(sc: &DtScenario) -> (Vec<Cb>, bool) {
+    reference_local(sc, false)
+}
+
+/// The reference fold; with `apply_local` the local map writes of the scenario are applied to the state at their
+/// positions while the link is up (what the client map downlink does), without any callback.
+pub fn reference_local(sc: &DtScenario, apply_local: bool) -> (Vec<Cb>, bool) {
     #[derive(PartialEq)]
     enum St {
         Unlinked,
@@ -432,9 +563,22 @@ pub fn reference(sc: &DtScenario) -> (Vec<Cb>, bool) {
     let mut map: BTreeMap<i32, i32> = BTreeMap::new();
     let mut out = vec![];
     let mut terminated = false;
-    for n in sc.script.iter() {
+    for (idx, n) in sc.script.iter().enumerate() {
         if terminated {
             break;
+        }
+        if apply_local && sc.map && st != St::Unlinked {
+            for (_, op) in sc.map_ops.iter().filter(|(p, _)| *p as usize == idx) {
+                match op {
+                    MOp::Upd(k, v) => {
+                        map.insert(*k, *v);
+                    }
+                    MOp::Rem(k) => {
+                        map.remove(k);
+                    }
+                    MOp::Clr => map.clear(),
+                }
+            }
         }
         match n {
             N::Linked => {
@@ -533,6 +677,32 @@ pub fn same_kind(a: &Cb, b: &Cb) -> bool {
 }
 
 pub fn check(rec: &Record) -> Vec<Violation> {
+    let sc = &rec.sc;
+    let strict = check_against(rec, false);
+    if !sc.map || sc.map_ops.is_empty() || !sc.legal || strict.is_empty() {
+        return strict;
+    }
+    // The history differs from the fold of the notifications alone. If it is exactly the fold with the local
+    // writes applied to the state at their positions, that is one (recorded) behaviour; anything else is judged
+    // against that behaviour, so that a fault in how local writes are handled is still reported on its own.
+    let with_local = check_against(rec, true);
+    if with_local.is_empty() {
+        let frag = if sc.in_cap < 4096 { "fragmented" } else { "whole_frames" };
+        let first = &strict[0];
+        return vec![Violation::new(
+            "C08",
+            "C08.local_write",
+            &format!("applied_to_state:{frag}"),
+            format!(
+                "the callbacks equal the fold of the notifications only if the local writes {:?} are applied to the state when issued; against the notifications alone: {}",
+                sc.map_ops, first.detail
+            ),
+        )];
+    }
+    with_local
+}
+
+fn check_against(rec: &Record, apply_local: bool) -> Vec<Violation> {
     let mut out = vec![];
     let sc = &rec.sc;
     let frag = if sc.in_cap < 4096 { "fragmented" } else { "whole_frames" };
@@ -542,7 +712,7 @@ pub fn check(rec: &Record) -> Vec<Violation> {
     if !sc.legal || rec.step_limit {
         return out;
     }
-    let (expect, _) = reference(sc);
+    let (expect, _) = reference_local(sc, apply_local);
     let got: Vec<Cb> = rec.trace.iter().map(|(_, c)| c.clone()).collect();
     // Compare callback by callback. The map snapshot handed to on_remove during take / drop may be any
     // state the map passes through (or the final one): it must not contain the removed key and must
@@ -592,6 +762,27 @@ pub fn check(rec: &Record) -> Vec<Violation> {
     if let Some(r) = &rec.result {
         if r != "Ok" {
             out.push(Violation::new("C08", "C08.task_failed", frag, format!("the downlink task failed on a legal notification sequence: {r}")));
+        }
+    }
+    // Every local map write accepted by the handle is written to the link, in order, unchanged.
+    if sc.map && !rec.map_ops_issued.is_empty() {
+        let expect_out: Vec<String> = rec
+            .map_ops_issued
+            .iter()
+            .filter(|(_, _, ok)| *ok)
+            .map(|(_, op, _)| match op {
+                MOp::Upd(k, v) => format!("@update(key:{k}) {v}"),
+                MOp::Rem(k) => format!("@remove(key:{k})"),
+                MOp::Clr => "@clear".to_string(),
+            })
+            .collect();
+        let norm = |t: &String| t.replace(' ', "");
+        let got_out: Vec<String> = rec.out_bodies.iter().map(norm).collect();
+        let exp_out: Vec<String> = expect_out.iter().map(norm).collect();
+        let task_over = rec.result.is_some();
+        let ok = if task_over { exp_out.starts_with(&got_out) } else { got_out == exp_out };
+        if !ok {
+            out.push(Violation::new("C08", "C08.local_map_write", frag, format!("local writes handed to the handle {:?}, commands written to the link {:?}", expect_out, rec.out_bodies)));
         }
     }
     // Local sets come out in order.
@@ -654,6 +845,9 @@ impl World for DlTaskWorld {
             log.rec(*s, "callback", &format!("{:?}", c));
         }
         log.rec(rec.steps, "result", &format!("{:?} fed={} sent={:?}", rec.result, rec.fed, rec.out_frames));
+        if !rec.map_ops_issued.is_empty() {
+            log.rec(rec.steps, "local", &format!("issued={:?} written={:?}", rec.map_ops_issued, rec.out_bodies));
+        }
         let mut out = Outcome {
             violations: check(&rec),
             log_hash: log.hash(),
@@ -672,8 +866,13 @@ impl World for DlTaskWorld {
         out.count("probe.clear", sc.script.iter().filter(|n| matches!(n, N::Clear)).count() as u64);
         out.count("probe.relink", sc.script.iter().filter(|n| matches!(n, N::Linked)).count().saturating_sub(1) as u64);
         out.count("local_sets_sent", rec.out_frames.len() as u64);
+        out.count("local_map_writes_issued", rec.map_ops_issued.len() as u64);
+        out.count("local_map_writes_written", rec.out_bodies.len() as u64);
+        if sc.map && sc.legal && !sc.map_ops.is_empty() {
+            out.count("probe.local_write_changes_fold", (reference_local(&sc, true).0 != reference_local(&sc, false).0) as u64);
+        }
         out.count("step_limit_hit", rec.step_limit as u64);
-        out.nontrivial = sc.script.len() > 3 && (sc.in_cap < 4096 || sc.script.iter().any(|n| matches!(n, N::Take(_) | N::Drop(_) | N::Clear)) || !sc.local_sets.is_empty() || sc.script.iter().filter(|n| matches!(n, N::Linked)).count() > 1 || !sc.events_when_not_synced);
+        out.nontrivial = sc.script.len() > 3 && (sc.in_cap < 4096 || sc.script.iter().any(|n| matches!(n, N::Take(_) | N::Drop(_) | N::Clear)) || !sc.local_sets.is_empty() || !sc.map_ops.is_empty() || sc.script.iter().filter(|n| matches!(n, N::Linked)).count() > 1 || !sc.events_when_not_synced);
         out
     }
 
@@ -686,17 +885,30 @@ impl World for DlTaskWorld {
             if !matches!(sc.script[i], N::Linked | N::Synced | N::Unlinked) {
                 let mut c = sc.clone();
                 c.script.remove(i);
+                for (p, _) in c.map_ops.iter_mut() {
+                    if *p as usize > i {
+                        *p -= 1;
+                    }
+                }
                 out.push(c);
             }
         }
         for cut in (1..n).rev() {
             let mut c = sc.clone();
             c.script.truncate(cut);
+            for (p, _) in c.map_ops.iter_mut() {
+                *p = (*p).min(cut as u32);
+            }
             out.push(c);
         }
         if !sc.local_sets.is_empty() {
             let mut c = sc.clone();
             c.local_sets.clear();
+            out.push(c);
+        }
+        for i in 0..sc.map_ops.len() {
+            let mut c = sc.clone();
+            c.map_ops.remove(i);
             out.push(c);
         }
         if sc.in_cap != 4096 {
